@@ -62,6 +62,9 @@ def read_cmds(size, widths, quick, rng=None, off=0):
         # the same through a window spliced out of a larger block (the buffer the reader is given ends inside a
         # segment that goes on: running out of data is still reported, nothing beyond the window is returned)
         cmds.append("sget %d %d w%d.%d:%s %s" % (size, off, rng.below(4), 1 + rng.below(5), rand_seg(rng, size), ws))
+        if size >= 2:
+            # ... and over a block that was built by append, split and appended to again
+            cmds.append("sget %d %d x%d.%d:%s %s" % (size, off, 1 + rng.below(size - 1), 1 + rng.below(4), rand_seg(rng, size), ws))
     cmds.append("oget %d %d %s" % (size, off, ws))
     return cmds
 
